@@ -22,6 +22,7 @@ from .values import (
     JSBoundMethod,
     _JS_WHITESPACE,
     array_index,
+    decimal_integer,
     js_number,
     js_pow,
     to_integer,
@@ -835,16 +836,11 @@ class Context:
             # json.loads accepts NaN, Infinity and -Infinity; JSON does not
             raise ValueError(f"Unexpected token {name}")
 
-        def integer_token(token):
-            # "-0" is the negative zero, which a host int cannot hold
-            n = int(token)
-            return -0.0 if n == 0 and token.startswith("-") else n
-
         def parse_fn(*args):
             text = to_string(args[0]) if args else ""
             try:
                 py_value = json.loads(
-                    text, parse_constant=reject_constant, parse_int=integer_token
+                    text, parse_constant=reject_constant, parse_int=decimal_integer
                 )
                 return ctx._to_js(py_value)
             except RecursionError:
